@@ -1,13 +1,13 @@
 SPECIFICATION Spec
 CONSTANTS
-  Configs <- CfgClean
+  Configs <- CfgPause
   Window = 2
   MaxFaults = 0
   FaultKinds <- AllKinds
-  MaxPauses = 0
+  MaxPauses = 2
   TimeoutTicks = 2
   MaxTicks = 3
   StopRoles <- NoRoles
-INVARIANTS TypeOK Fidelity NoSilentCorruption NoFalseSuccess CleanRunSucceeds AckWithinSaved
-PROPERTIES Termination
+INVARIANTS TypeOK Fidelity NoSilentCorruption NoFalseSuccess ShortPauseCompletes
+PROPERTIES Termination NoDataWhilePaused
 CHECK_DEADLOCK FALSE
